@@ -134,7 +134,7 @@ def run(ck):
                "specification assigns (emit ok, load ok, one document, projected document = projected tree, second text = first text, text pure printable ASCII) is counted and one in K of them is judged; every other case is judged by Trace_RoundTrip. "
                "distinct = distinct (settings, emitted text) pairs, measured") % (4 if thorough else 3, 5 if thorough else 3, 6 if thorough else 5)
     ck.assumptions = ["well-formedness of the emitted text = the library's own loader accepts it as exactly one document + every character is in YAML's printable set (5.1); over-acceptance of the loader is the business of C05/C06",
-                      "floats are symbolic names in TLC (1.0, -0.0, 0.1, 1e16, 123456789.125, -2.5, 1e300, 5e-324) mapped to f64 by Rust's parse and compared by bit pattern (NaN = NaN); non-finite floats are excluded here: their emission (.inf/.nan) is repaired by the C08 emitter patch",
+                      "floats are symbolic names in TLC (1.0, -0.0, 0.1, 1e16, 123456789.125, -2.5, 1e300, 5e-324) and the non-finite inf, -inf, NaN, mapped to f64 by Rust's parse and compared by bit pattern (NaN = NaN)",
                       "trees contain resolved values only (no Representation / Alias / BadValue), mapping keys unique",
                       "the text predicted by YEmitter is drift-only; the verdict is the round trip itself",
                       "YEmitter models the REPAIRED emitter (fixes/C09a..C09e applied)"]
